@@ -38,10 +38,13 @@ package cleaner
 // First filter of a cleaning run: a snapshot stays a removal candidate only if
 // it was first seen in an earlier run and more than the keep interval ago.
 //@ func (w *Worker) RunOnce$2
-//@   ensures keep_interval: r0 ==> exists && int64(now.Sub(firstSeenTime)) > int64(w.conf.MustKeepInterval)
+//@   ensures keep_interval: r0 ==> old(inMap(w.snapFirstSeen, ni.FullName)) && int64(now.Sub(old(w.snapFirstSeen[ni.FullName]))) > int64(w.conf.MustKeepInterval)
+//@   ensures first_sight_is_recorded: !old(inMap(w.snapFirstSeen, ni.FullName)) ==> !r0 && inMap(w.snapFirstSeen, ni.FullName)
 
 // Second filter: the first (newest) snapshot of an instance that is still a
 // candidate is never passed on for deletion here.
+//@ func (w *Worker) RunOnce$3
+//@   ensures newest_of_an_instance_is_kept: !old(seenInstances[ni.InstanceID]) ==> !r0 && seenInstances[ni.InstanceID]
 
 // One cleaning run: disabled => nothing; a List error returns before any
 // Delete; a stale instance's newest snapshot is deleted only if it is not
